@@ -335,11 +335,10 @@ pub fn lax_ip_dispatch() {
 /// succeeds the lax walk is identical, and wherever it fails the lax walk keeps every layer in front
 /// of the fault. Together with "strict == walk(strict)" (C03) and "lax == walk(lax)" (c05_glue_*) this
 /// carries the strict/lax relation to whole packets.
-pub fn ref_lax_extends_strict<const N: usize>() {
+pub fn ref_lax_extends_strict<const N: usize, const START: u8>() {
     let data: [u8; N] = any();
     let s = &data[..any_le(N)];
-    let which: u8 = any();
-    let start = match which & 3 {
+    let start = match START {
         0 => Start::Ethernet,
         1 => Start::Sll,
         2 => Start::EtherType(any()),
@@ -347,25 +346,32 @@ pub fn ref_lax_extends_strict<const N: usize>() {
     };
     let a = refm::walk(start, s, false);
     let b = refm::walk(start, s, true);
-    if a.fault.is_none() {
-        witness!(a.tr.is_some(), "strict_ok_with_transport");
-        assert!(a == b, "reference: lax differs from a successful strict walk");
-    } else {
-        // same link / link extension prefix
-        assert!(a.link == b.link);
-        assert!(b.n_exts >= a.n_exts);
-        if a.n_exts >= 1 {
-            assert!(a.exts[0] == b.exts[0]);
+    // same link / link extension prefix in every case
+    assert!(a.link == b.link);
+    assert!(b.n_exts >= a.n_exts);
+    if a.n_exts >= 1 {
+        assert!(a.exts[0] == b.exts[0]);
+    }
+    if a.n_exts >= 2 {
+        assert!(a.exts[1] == b.exts[1]);
+    }
+    if a.n_exts == 3 {
+        assert!(a.exts[2] == b.exts[2]);
+    }
+    match a.fault {
+        None => {
+            witness!(a.tr.is_some(), "strict_ok_with_transport");
+            assert!(b.fault.is_none() && !b.ip_version_mismatch, "reference: lax reports a fault where strict succeeds");
+            assert!(a.n_exts == b.n_exts && a.net == b.net && a.tr == b.tr, "reference: lax differs from a successful strict walk");
+            if let Some(RNet::Ip { ip, .. }) = b.net {
+                assert!(!ip.incomplete);
+            }
         }
-        if a.n_exts >= 2 {
-            assert!(a.exts[1] == b.exts[1]);
-        }
-        if a.n_exts == 3 {
-            assert!(a.exts[2] == b.exts[2]);
-        }
-        if let Some(f) = b.fault {
-            // lax stops at the same fault or at a later one (after a length over-claim it carries on)
-            assert!(f.off >= a.fault.unwrap().off);
+        Some(fa) => {
+            if let Some(fb) = b.fault {
+                // lax stops at the same fault or at a later one (after a length over-claim it carries on)
+                assert!(fb.off >= fa.off);
+            }
         }
     }
 }
@@ -478,7 +484,6 @@ pub mod glue {
     }
 
     fn payload(s: &[u8], p: &LaxIpPayloadSlice, o: usize, ip: &refm::RIp) {
-        witness!(p.incomplete, "incomplete");
         assert!(off(s, p.payload) == o + ip.payload_off && p.payload.len() == ip.payload_len, "C05: wrong IP payload range");
         assert!(p.ip_number.0 == ip.proto && p.fragmented == ip.fragmented);
         assert!(p.incomplete == ip.incomplete, "C05: incomplete flag");
@@ -564,5 +569,8 @@ crate::harnesses! {
     c05_lax_ipv6_exts_24 = lax_ipv6_exts::<24>; unwind 5,
     c05_lax_ipv4_exts = lax_ipv4_exts; unwind 4,
     c05_lax_ip_dispatch = lax_ip_dispatch; unwind 4,
-    c05_ref_lax_extends_strict_48 = ref_lax_extends_strict::<48>; unwind 6,
+    c05_ref_lax_extends_strict_eth = ref_lax_extends_strict::<44, 0>; unwind 6,
+    c05_ref_lax_extends_strict_sll = ref_lax_extends_strict::<44, 1>; unwind 6,
+    c05_ref_lax_extends_strict_ether_type = ref_lax_extends_strict::<40, 2>; unwind 6,
+    c05_ref_lax_extends_strict_ip = ref_lax_extends_strict::<48, 3>; unwind 6,
 }
